@@ -275,7 +275,9 @@ class PerceptionAnalyzerBase(ABC):
             int: The number of ground truths.
         """
         df_ = self.get_ground_truth(df=df, **kwargs)
-        return len(df_)
+        # NOTE: GT matched with FP estimation is also listed as FN, do not count it twice
+        is_duplicated = (df_["status"] == "FP") & (df_["label"] != "false_positive")
+        return len(df_) - int(is_duplicated.sum())
 
     def get_num_estimation(self, df: Optional[pd.DataFrame] = None, **kwargs) -> int:
         """Returns the number of estimations.
